@@ -218,8 +218,16 @@ def scopes_at(nested, path, world, env, r, nsamples):
         yield scope, exhaustive
 
 
+def strip_comments(x):
+    """A comment is not part of a term."""
+    if isinstance(x, list):
+        return [strip_comments(y) for y in x
+                if not (isinstance(y, str) and y.startswith(';'))]
+    return x
+
+
 def judge(ns, res, nested, exprs, world, r, mname, m, path, node, origin,
-          nassign, filtered=False):
+          nassign, filtered=False, commented=False):
     """All proposals of mutator m at the term position ``path``."""
     try:
         if not filtered and hasattr(m, 'filter') and not m.filter(node):
@@ -229,7 +237,7 @@ def judge(ns, res, nested, exprs, world, r, mname, m, path, node, origin,
         res.count('proposals_with_exceptions')
         res.add_set('exceptions', f'{mname}:{type(e).__name__}')
         return
-    orig = refmodel.to_nested(node)
+    orig = strip_comments(refmodel.to_nested(node))
     if mname in BINARY_ONLY:
         rel = orig[1] if mname == 'ArithmeticNegateRelation' else orig
         if isinstance(rel, list) and len(rel) != 3:
@@ -242,9 +250,11 @@ def judge(ns, res, nested, exprs, world, r, mname, m, path, node, origin,
         rep_node = simp.substs[node.id]
         if rep_node is None:
             continue
-        rep = refmodel.to_nested(rep_node)
+        rep = strip_comments(refmodel.to_nested(rep_node))
         res.count('evaluations')
         res.count(f'judged_{mname}')
+        if commented:
+            res.count('judged_with_a_comment_inside_the_term')
         free = evalsmt.free_consts(orig, world)
         try:
             free = free | evalsmt.free_consts(rep, world)
@@ -315,7 +325,7 @@ def judge(ns, res, nested, exprs, world, r, mname, m, path, node, origin,
 
 
 def classify(mname, orig, rep, v0, v1):
-    if mname == 'LetSubstitution':
+    if mname == 'LetSubstitution' and v1[0] != 'ILL-FORMED':
         return 'let-substitution-capture'
     if mname == 'InlineDefinedFuns':
         return 'inline-defined-fun'
@@ -421,6 +431,46 @@ def check_script(ns, res, r, nested, paths, origin, nassign):
                     break
 
 
+def check_commented(ns, res, r, nested, paths, origin, nassign, nvar=3):
+    """Instances with a comment inside a term (the reader keeps it as a
+    child): the term is the same term, so a rewrite of it or of the term
+    above it still has to preserve sort and value."""
+    import copy
+    compound = [tuple(p) for p in paths
+                if isinstance(gen_smt.get_path(nested, p), list)
+                and len(gen_smt.get_path(nested, p)) >= 2 and len(p) >= 2]
+    if not compound:
+        return
+    pathset = {tuple(p) for p in paths}
+    world = evalsmt.World(nested)
+    muts = mutators(ns)
+    for _ in range(nvar):
+        p = r.choice(compound)
+        n2 = copy.deepcopy(nested)
+        lst = gen_smt.get_path(n2, p)
+        lst.insert(r.choice([1, 1, len(lst)]),
+                   r.choice(['; c\n', ';\n', '; (a b) "c\n']))
+        text = refreader.render(n2)
+        exprs = list(ns.nodeio.parse_smtlib(text))
+        if refmodel.to_nested_list(exprs) != n2:
+            res.count('commented_variants_read_differently')
+            continue
+        try:
+            ns.smtlib.collect_information(exprs)
+        except Exception as e:  # noqa
+            res.add_set('exceptions', f'collect:commented:{type(e).__name__}')
+            continue
+        res.count('commented_variants')
+        for q in (p, p[:-1]):
+            if q not in pathset:
+                continue
+            node = node_at(exprs, q)
+            for mname, m in muts:
+                judge(ns, res, strip_comments(n2), exprs, world, r, mname, m,
+                      q, node, origin + ':commented', nassign,
+                      commented=True)
+
+
 def shard(args):
     from vlib import dd
     ns = dd.load()
@@ -456,6 +506,9 @@ def shard(args):
         paths = [p for p, _ in script.positions()]
         check_script(ns, res, r, nested, paths, f'{args["shard"]}:{i}',
                      nassign)
+        if i % 2 == 0:
+            check_commented(ns, res, r, nested, paths,
+                            f'{args["shard"]}:{i}', nassign)
         res.count('scripts')
         res.add_distinct(common.digest(refreader.render(nested)))
         if i < 1:
